@@ -28,6 +28,10 @@ UNIT_HARNESS = {
     'repeat': ('blocks_harness.rs', 'repeat'),
     'hdlc': ('blocks_harness.rs', 'hdlc'),
     'sync': ('blocks_harness.rs', 'sync'),
+    # floating-point blocks: differential chunk-independence (roomy run vs adversarial drip-feed run), tags one-to-one
+    'dsp': ('dsp_harness.rs', 'zc,zcclk,symsync,ssclk,fftfilt,fftfiltc,firf,hilbert,iir1,slicer,qdemod'),
+    'zc': ('dsp_harness.rs', 'zc,zcclk'),
+    'fftfilter': ('dsp_harness.rs', 'fftfilt,fftfiltc'),
 }
 
 
